@@ -17,11 +17,12 @@ import (
 )
 
 type raceReport struct {
-	Text     string
-	Summary  string
-	InSdfx   bool
-	Harness  bool
-	TopFuncs []string
+	Text       string
+	Summary    string
+	InSdfx     bool
+	Harness    bool
+	ThirdParty bool // both accesses are inside a library sdfx calls (recorded, not a verdict)
+	TopFuncs   []string
 }
 
 type runOut struct {
@@ -149,12 +150,18 @@ func parseRaces(se string) []raceReport {
 		}
 		r := raceReport{Text: strings.TrimSpace(p)}
 		lines := strings.Split(r.Text, "\n")
-		// the frames of an access follow a line ending in ":" ("Write at ... by goroutine N:")
+		// The frames of an access follow a line ending in ":" ("Write at ... by
+		// goroutine N:"). An access belongs to the package of its first frame
+		// that is not in the Go runtime (runtime map/slice helpers report on
+		// behalf of their caller).
 		grab := false
+		var owners []string
+		ownerSet := false
 		for _, ln := range lines {
 			t := strings.TrimSpace(ln)
 			if strings.HasSuffix(t, ":") && (strings.Contains(t, " at 0x") || strings.HasPrefix(t, "Previous ")) {
 				grab = true
+				ownerSet = false
 				continue
 			}
 			if strings.HasPrefix(t, "Goroutine ") {
@@ -170,13 +177,33 @@ func parseRaces(se string) []raceReport {
 					fn = fn[:i]
 				}
 				r.TopFuncs = append(r.TopFuncs, fn)
-				if strings.Contains(fn, "github.com/deadsy/sdfx/") {
-					r.InSdfx = true
+				if !ownerSet && !strings.HasPrefix(fn, "runtime.") && !strings.HasPrefix(fn, "sync.") && !strings.HasPrefix(fn, "sync/atomic.") {
+					ownerSet = true
+					owners = append(owners, fn)
 				}
 			}
 		}
+		for _, o := range owners {
+			if strings.Contains(o, "github.com/deadsy/sdfx/") && !strings.HasSuffix(o, ".simYield") {
+				r.InSdfx = true
+			}
+		}
 		if !r.InSdfx {
+			// all access owners in the harness => harness bug; otherwise the
+			// accesses belong to a third-party library that sdfx calls
 			r.Harness = true
+			for _, o := range owners {
+				if !strings.HasPrefix(o, "verif/sim/") && !strings.HasPrefix(o, "main.") {
+					r.Harness = false
+					r.ThirdParty = true
+				}
+			}
+			if len(owners) == 0 {
+				r.Harness = true
+			}
+		}
+		if r.ThirdParty && len(owners) > 0 {
+			r.Summary = "third-party: " + owners[0]
 		}
 		// summary: the first sdfx frames of the accesses
 		var sf []string
@@ -196,7 +223,9 @@ func parseRaces(se string) []raceReport {
 				break
 			}
 		}
-		r.Summary = strings.Join(sf, " / ")
+		if !r.ThirdParty {
+			r.Summary = strings.Join(sf, " / ")
+		}
 		out = append(out, r)
 	}
 	return out
